@@ -67,6 +67,8 @@ type detFrame struct {
 	// FFCState is the state word the telemetry carries next to the times ("never", "imminent",
 	// "running", "complete"); every FFC rule in the properties is the 10 s time rule alone
 	FFCState string
+	// Bad: the parser rejects this frame (used by streams that go through Process)
+	Bad bool
 }
 
 // paintFFCStates fills in the telemetry's state word. mode 0: "running" on every frame the 10 s
